@@ -54,6 +54,34 @@ class RandomChooser:
         return cands[self.rng.randrange(len(cands))]
 
 
+class DemoteAtLine:
+    """run-to-block scheduling with fixed (random) thread priorities; the n-th time a thread executes the given source
+    line it drops to the lowest priority, i.e. it is preempted exactly there and everybody else runs first -- one
+    targeted preemption, used to search the windows of a function whose source changed"""
+
+    def __init__(self, where, nth=1, rng=None):
+        self.where, self.nth, self.rng = where, nth, rng
+        self.count = 0
+        self.prio = {}
+        self.demoted = set()
+        self.hit = False
+
+    def _p(self, t):
+        if t.idx not in self.prio:
+            self.prio[t.idx] = self.rng.random() if self.rng else t.idx
+        return (1 if t.idx in self.demoted else 0, self.prio[t.idx])
+
+    def choose(self, sched, cands, cur, kind):
+        if kind == "line" and cur is not None and getattr(cur, "where", None) == self.where and not self.hit:
+            self.count += 1
+            if self.count == self.nth:
+                self.demoted.add(cur.idx)
+                self.hit = True
+        if cur in cands and cur.idx not in self.demoted and kind in ("line",):
+            return cur
+        return min(cands, key=self._p)
+
+
 class PCTChooser:
     """PCT-style: random priorities, d-1 priority change points"""
 
